@@ -656,6 +656,19 @@ impl TypedR for Option<u64> {
 
 pub const TYPED_KINDS: [&str; 5] = ["u64", "str", "bool", "pt", "optu64"];
 
+
+/// the accessors of a `BatchResponse` must tell one story: `len`, `iter`, the two counters, `ok()`
+fn batch_accessors_consistent<R: std::fmt::Debug>(r: &BatchResponse<'_, R>) -> bool {
+	let n = r.iter().count();
+	let oks = r.iter().filter(|e| e.is_ok()).count();
+	let errs = n - oks;
+	let by_ok = match r.ok() {
+		Ok(it) => errs == 0 && it.count() == n,
+		Err(it) => errs > 0 && it.count() == errs,
+	};
+	r.len() == n && r.num_successful_calls() == oks && r.num_failed_calls() == errs && by_ok
+}
+
 pub fn typed_batch_comp<R: TypedR>(r: &BatchResponse<'_, R>) -> Comp {
 	let entries = r
 		.iter()
@@ -664,7 +677,9 @@ pub fn typed_batch_comp<R: TypedR>(r: &BatchResponse<'_, R>) -> Comp {
 			Err(eo) => Err(err_obj(eo)),
 		})
 		.collect();
-	Comp::Batch { succ: r.num_successful_calls(), fail: r.num_failed_calls(), entries }
+	// an inconsistent accessor shows up as an impossible success count
+	let succ = if batch_accessors_consistent(r) { r.num_successful_calls() } else { usize::MAX };
+	Comp::Batch { succ, fail: r.num_failed_calls(), entries }
 }
 
 /// `batch_request::<R>` of `n` entries `m()` on a concrete client, `R` chosen by the type tag of the op line.
@@ -702,7 +717,9 @@ fn batch_comp(r: &BatchResponse<'_, Raw>) -> Comp {
 			Err(eo) => Err(err_obj(eo)),
 		})
 		.collect();
-	Comp::Batch { succ: r.num_successful_calls(), fail: r.num_failed_calls(), entries }
+	// an inconsistent accessor shows up as an impossible success count
+	let succ = if batch_accessors_consistent(r) { r.num_successful_calls() } else { usize::MAX };
+	Comp::Batch { succ, fail: r.num_failed_calls(), entries }
 }
 
 /// Parameters of a `case <n> client <num|str> <cap> <fcap>` header.
